@@ -135,3 +135,25 @@ def copied(obj, way):
     if way == "pickle":
         return pickle.loads(pickle.dumps(obj, protocol=pickle.HIGHEST_PROTOCOL))
     return copy.copy(obj)
+
+
+def poke(obj):
+    """what an inquisitive client (a debugger, a logger, a notebook) does to an object between two calls: read every public
+    attribute and property, take repr() / str(), compare it with itself, hash it.  None of this is a use of the object: the
+    properties are stated over the calls that follow.  Methods are not called.  Returns the number of attributes read."""
+    n = 0
+    for name in dir(obj):
+        if name.startswith("_"):
+            continue
+        try:
+            v = getattr(obj, name)
+        except Exception:
+            continue
+        if not callable(v):
+            n += 1
+    for f in (repr, str, hash, lambda o: o == o, lambda o: o != o, bool):
+        try:
+            f(obj)
+        except Exception:
+            pass
+    return n
